@@ -113,10 +113,24 @@ func c14RunTree(tree ast.Stmt, spec string, wd time.Duration, settle bool, meet 
 	e.Define("meet", meet)
 	ctx, cancel := context.WithTimeout(context.Background(), wd)
 	defer cancel()
+	// round 9 (c14_r9.go): host functions that cancel the run's context synchronously and return
+	// their argument, for operands of channel expressions
+	selfCancelled := false
+	if strings.Contains(" "+spec+" ", " cancelops ") {
+		e.Define("hcv", func(v interface{}) interface{} { selfCancelled = true; cancel(); return v })
+	}
 	o := ank.RunCtx(ctx, e, tree)
 	var real realrun.Real
 	real.Trace, real.GTrace = rec.Snapshot()
 	switch {
+	case selfCancelled && !o.Panicked:
+		// the program cancelled its own context: the outcome is a result, not a watchdog expiry
+		real.SelfCancelled = true
+		if o.Err != nil {
+			real.ErrText = o.Err.Error()
+		} else {
+			real.Value = ank.Render(o.Val)
+		}
 	case o.Panicked:
 		// programs with a spec are goroutine-free: a panic is an outcome like any other and must repeat
 		real.Panicked, real.PanicSig, real.PanicVal = true, o.PanicSig, o.PanicVal
